@@ -141,14 +141,57 @@ def expand(smap, data, realsize):
     return bytes(out[:realsize])
 
 
-def rand_map(rnd, realsize, nent):
-    """sorted non-overlapping map inside realsize"""
+def rand_map(rnd, realsize, nent, zero=None):
+    """sorted non-overlapping map inside realsize.  zero (default: 30 %): additional ZERO-LENGTH entries -- a leading
+    "0,0" (what libarchive / bsdtar write for a file that starts with a hole), an empty entry exactly at the start of a
+    data region (adjacent duplicate offset), exactly at its end (= where the reader stands when it enters the hole),
+    strictly inside a hole, at offset == size in front of GNU tar's end marker.  They carry no data and do not change
+    the expansion."""
     if realsize == 0:
         return [(0, 0)]
     cuts = sorted(rnd.sample(range(realsize + 1), min(2 * nent, realsize + 1)))
     if len(cuts) % 2:
         cuts.pop()
     m = [(cuts[i], cuts[i + 1] - cuts[i]) for i in range(0, len(cuts), 2)]
+    if zero is None:
+        zero = rnd.random() < 0.3
+    if zero:
+        m = add_empty_entries(rnd, m, realsize, rnd.choice([1, 1, 2, 3]))
     if rnd.random() < 0.5:
         m.append((realsize, 0))       # GNU tar's end marker
     return m or [(realsize, 0)]
+
+
+def add_empty_entries(rnd, m, realsize, k):
+    """insert k zero-length entries into the sorted map m (kept sorted by offset; never more than two in front of the
+    first data entry: Python tarfile, the reference reader of the oracle, drops old GNU extension-block entries whose
+    offset is 0)"""
+    m = list(m)
+    for _ in range(k):
+        kind = rnd.choice(["start", "dup", "after", "inside", "end"])
+        lead = 0
+        while lead < len(m) and m[lead][1] == 0:
+            lead += 1
+        if kind == "start" or not any(c for _, c in m):
+            if lead < 2:
+                m.insert(0, (0, 0))
+            continue
+        idx = [i for i, (o, c) in enumerate(m) if c]
+        i = rnd.choice(idx)
+        o, c = m[i]
+        if kind == "dup":                   # (o,0) directly in front of (o,c)
+            if i > 0 or lead < 2:
+                m.insert(i, (o, 0))
+        elif kind == "after":               # (o+c,0) directly behind (o,c): the first offset of the hole that follows
+            m.insert(i + 1, (o + c, 0))
+        elif kind == "inside":              # strictly inside the hole behind (o,c), if there is one
+            nxt = next((m[j][0] for j in range(i + 1, len(m)) if m[j][0] > o + c), realsize)
+            if nxt - (o + c) >= 2:
+                x = rnd.randrange(o + c + 1, nxt)
+                j = i + 1
+                while j < len(m) and m[j][0] <= x:
+                    j += 1
+                m.insert(j, (x, 0))
+        else:
+            m.append((realsize, 0))
+    return m
